@@ -32,11 +32,20 @@ fn bases(tier: Tier) -> Vec<Base> {
     let mut v = Vec::new();
     match tier {
         Tier::Quick => {
-            for k in [1usize, 2] {
+            for k in [1usize, 2, 7] {
                 for m in ALL_METHODS {
-                    for kind in [FaultKind::NanAll, FaultKind::PosInf, FaultKind::Huge, FaultKind::Glitch] {
-                        for dur in [0u8, 1] {
-                            v.push(Base { k, m, backward: false, kind, dur, jac: JacMode::Analytic });
+                    if k == 7 && !m.implicit() {
+                        continue;
+                    }
+                    for backward in [false, true] {
+                        if backward && k != 1 {
+                            continue;
+                        }
+                        for kind in [FaultKind::NanAll, FaultKind::PosInf, FaultKind::Huge, FaultKind::Glitch] {
+                            for dur in [0u8, 1] {
+                                let jac = if k == 7 { JacMode::Fd } else { JacMode::Analytic };
+                                v.push(Base { k, m, backward, kind, dur, jac });
+                            }
                         }
                     }
                 }
@@ -62,8 +71,8 @@ fn bases(tier: Tier) -> Vec<Base> {
 
 fn n_sampled_chunks(tier: Tier) -> u64 {
     match tier {
-        Tier::Quick => 320,
-        Tier::Thorough => 16_000,
+        Tier::Quick => 4_000,
+        Tier::Thorough => 40_000,
     }
 }
 
